@@ -1,0 +1,84 @@
+//go:build verif
+
+package snow3g
+
+// Contracts for the deductive check in /verif (comment-only; compiled only with -tags verif).
+// spec.* are the definitions of /verif/spec (written from the SNOW 3G specification).
+// `opaque` lists spec functions that stay uninterpreted while the top-level spec call of a goal is unfolded;
+// in assumed clauses (callee contracts at call sites, loop invariants at the loop head) every spec call is
+// uninterpreted.
+
+//@ func mulx(V, c) (r)
+//@   inline
+//@   assigns nothing
+//@   ensures r == spec.MULx(V, c)
+//@ end
+
+//@ func s1(w) (r)
+//@   assigns nothing
+//@   specfuel 9
+//@   ensures r == spec.S1(w)
+//@ end
+
+//@ func s2(w) (r)
+//@   assigns nothing
+//@   specfuel 9
+//@   ensures r == spec.S2(w)
+//@ end
+
+//@ func mulAlpha(c) (r)
+//@   assigns nothing
+//@   specfuel 999
+//@   ensures r == spec.MULalpha(c)
+//@ end
+
+//@ func divAlpha(c) (r)
+//@   assigns nothing
+//@   specfuel 999
+//@   ensures r == spec.DIValpha(c)
+//@ end
+
+//@ func (s *snow3g) lfsrInitializationMode(F)
+//@   assigns s.lfsr
+//@   specfuel 2
+//@   ensures s.lfsr == spec.LfsrInit(old(s.lfsr), F)
+//@ end
+
+//@ func (s *snow3g) lfsrKeystreamMode()
+//@   assigns s.lfsr
+//@   specfuel 2
+//@   ensures s.lfsr == spec.LfsrKey(old(s.lfsr))
+//@ end
+
+//@ func (s *snow3g) clockFsm(s15, s5) (F)
+//@   assigns s.fsm
+//@   ensures F == spec.FsmF(old(s.fsm), s15)
+//@   ensures s.fsm == spec.FsmNext(old(s.fsm), s5)
+//@ end
+
+//@ func newSnow3g(k, iv) (r)
+//@   specfuel 999
+//@   opaque FsmF, FsmNext, LfsrInit
+//@   ensures r != nil
+//@   ensures *r == spec.SnowInit(k, iv)
+//@ end
+
+//@ func (s *snow3g) generateKeystream(n, ks)
+//@   requires 0 <= n && n <= len(ks)
+//@   assigns *s, ks[:]
+//@   specfuel 999
+//@   opaque FsmF, FsmNext, LfsrKey, SnowWorkIter
+//@   loop 0 invariant 0 <= i && i <= n
+//@   loop 0 invariant *s == spec.SnowWorkIter(old(*s), i)
+//@   loop 0 invariant forall(t, 0, i, ks[t] == spec.SnowWorkZ(old(*s), t))
+//@   loop 0 decreases n - i
+//@   ensures forall(t, 0, n, ks[t] == spec.SnowWorkZ(old(*s), t))
+//@ end
+
+//@ func GetKeyStream(k, iv, n) (r)
+//@   requires 0 <= n && n < 0x10000000
+//@   specfuel 999
+//@   opaque SnowWorkZ, SnowInit
+//@   ensures len(r) == n
+//@   ensures forall(t, 0, n, r[t] == spec.SnowKeystreamWord(k, iv, t))
+//@ end
